@@ -29,6 +29,7 @@ fn main() {
   };
   let sub = args.iter().any(|a| a == "--sub");
   vcheck::runner::start_watchdog();
+  vcheck::runner::install_crash_handler();
   let ctx = Ctx { tier, seed, verif_dir, threads, sub };
   let code = vcheck::props::dispatch(&id, &ctx, replay.as_deref());
   std::process::exit(code);
